@@ -5,7 +5,7 @@ use serde_json::{json, Value};
 pub fn dispatch(op: &str, _req: &Value) -> Option<Value> {
     match op {
         "hooks_available" => Some(json!({"hooks": false})),
-        "hook_range_of_ranges" | "hook_ident" | "hook_is_keyword" | "hook_dedup" => Some(json!({"no_hooks": true})),
+        "hook_range_of_ranges" | "hook_ident" | "hook_is_keyword" | "hook_dedup" | "hook_wildcards" => Some(json!({"no_hooks": true})),
         _ => None,
     }
 }
@@ -49,6 +49,20 @@ pub fn dispatch(op: &str, req: &Value) -> Option<Value> {
                 })
                 .unwrap_or_default();
             Some(json!({"kept": h::deduplicate_select_items(items)}))
+        }
+        "hook_wildcards" => {
+            let us = |v: &Value| -> Vec<usize> { v.as_array().map(|a| a.iter().filter_map(|x| x.as_u64().map(|n| n as usize)).collect()).unwrap_or_default() };
+            let cols = us(&req["cols"]);
+            let decls: Vec<(usize, usize, bool)> = req["decls"]
+                .as_array()
+                .map(|a| a.iter().map(|d| (d[0].as_u64().unwrap_or(0) as usize, d[1].as_u64().unwrap_or(0) as usize, d[2].as_bool().unwrap_or(false))).collect())
+                .unwrap_or_default();
+            let insts: Vec<(usize, Vec<usize>)> = req["instances"]
+                .as_array()
+                .map(|a| a.iter().map(|d| (d[0].as_u64().unwrap_or(0) as usize, us(&d[1]))).collect())
+                .unwrap_or_default();
+            let (out, ex) = h::translate_wildcards(cols, decls, insts);
+            Some(json!({"output": out, "excluded": ex}))
         }
         _ => None,
     }
